@@ -44,7 +44,7 @@ class RefProc(plumpy.Process):
 
     def load_instance_state(self, saved_state, load_context):
         super().load_instance_state(saved_state, load_context)
-        self._history = saved_state['history']
+        self._history = list(saved_state['history'])      # (a copy: the loaded bundle belongs to whoever loaded it)
 
 
 class ChainProc(plumpy.WorkChain):
